@@ -115,10 +115,25 @@ func vHeaderV1(roots ...cid.Cid) []byte {
 	return buf.Bytes()
 }
 
+type vSection struct {
+	c    cid.Cid
+	data []byte
+	off  uint64 // offset of the length prefix within the payload
+}
+
 func vCat(parts ...[]byte) []byte {
 	var out []byte
 	for _, p := range parts {
 		out = append(out, p...)
 	}
 	return out
+}
+
+// vValidSection: a section whose CID comes from the collision alphabet and whose data (length
+// 0..maxData, arbitrary content) hashes to it.
+func vValidSection(tag string, maxData int) vSection {
+	c := vCidT(tag)
+	data := vBytes(tag+".data", vChoose(tag+".len", maxData+1))
+	vAssume(vValidBlock(c, data))
+	return vSection{c: c, data: data}
 }
